@@ -580,7 +580,10 @@ func c13_4(c *core.Ctx, p *core.Prog) {
 	pos := "pkg/otel/common/schema/transform/dictionary.go"
 	c.Check(len(msgs) == 0, "tables", pos, "AllIndexTypes/AllIndexMaxCard", fmt.Sprintf("%d index types with capacity 2^bits−1 each", len(types16)), strings.Join(msgs, "; ")+" — a dictionary could hold more entries than its index type can address")
 	// findIndex
-	fi := sp.Func("findIndex")
+	fi := indexFunctionOf(p)
+	if fi == nil {
+		fi = sp.Func("findIndex")
+	}
 	if fi == nil {
 		c.Undecided("findIndex", pos, "", "findIndex not found")
 	} else {
@@ -620,31 +623,74 @@ func c13_4(c *core.Ctx, p *core.Prog) {
 		}
 		c.Check(len(msgs) == 0, "findIndex", p.Pos(fi.Pos()), core.FuncName(fi), "maps each capacity interval to the least index", strings.Join(msgs, "; "))
 	}
-	// ranges: both tables sliced [findIndex(min) : findIndex(max)+1]
-	for _, name := range []string{"indexTypesRange", "indexMaxCardRange"} {
-		fn := sp.Func(name)
-		if fn == nil {
-			c.Undecided("range="+name, pos, "", name+" not found")
-			continue
-		}
-		okR := false
+	// windows: every slice-typed field of a transform-package struct that is filled from a package-level
+	// table holds table[f(min) : f(max)+1] with f the validated index function, and all such fields
+	// of one struct are cut with the same (min, max) — the types a column may use stay aligned with
+	// their capacities. The stored value is followed through package helpers (generic or not), each
+	// parameter standing for the argument of the call it was reached through.
+	type windowT struct {
+		table  *ssa.Global
+		fn     *ssa.Function
+		lo, hi ssa.Value
+		field  *types.Var
+		pos    token.Pos
+		host   *ssa.Function
+	}
+	var wins []windowT
+	var bad []string
+	for _, fn := range p.FuncsIn(func(pp string) bool { return pp == pkgTransform }) {
+		fn := fn
 		core.EachInstr(fn, func(i ssa.Instruction) {
-			sl, ok := i.(*ssa.Slice)
-			if !ok || sl.Low == nil || sl.High == nil {
+			st, ok := i.(*ssa.Store)
+			if !ok {
 				return
 			}
-			lo, ok1 := sl.Low.(*ssa.Call)
-			hb, ok2 := sl.High.(*ssa.BinOp)
-			if !ok1 || !ok2 || lo.Call.StaticCallee() != fi || hb.Op != token.ADD {
+			fa, ok := st.Addr.(*ssa.FieldAddr)
+			if !ok {
 				return
 			}
-			hc, ok3 := hb.X.(*ssa.Call)
-			one, isC := core.ConstInt(hb.Y)
-			if ok3 && hc.Call.StaticCallee() == fi && isC && one == 1 && lo.Call.Args[0] == ssa.Value(fn.Params[0]) && hc.Call.Args[0] == ssa.Value(fn.Params[1]) {
-				okR = true
+			if _, isSl := core.FieldVar(fa).Type().Underlying().(*types.Slice); !isSl {
+				return
 			}
+			tbl, f, lo, hi, why := tableWindow(st.Val, nil, 0)
+			if tbl == nil {
+				return // not filled from a package table (or not a window at all: C16.2 watches aliasing of the tables)
+			}
+			if why != "" {
+				bad = append(bad, fmt.Sprintf("%s: %s.%s: %s", p.Pos(st.Pos()), core.TypeName(fa.X.Type()), core.FieldName(fa), why))
+				return
+			}
+			wins = append(wins, windowT{tbl, f, lo, hi, core.FieldVar(fa), st.Pos(), fn})
 		})
-		c.Check(okR, "range="+name, p.Pos(fn.Pos()), core.FuncName(fn), "table[findIndex(min) : findIndex(max)+1]", name+" does not return table[findIndex(min) : findIndex(max)+1]: the widths a column may use would not match its capacities")
+	}
+	if len(wins) < 2 && len(bad) == 0 {
+		c.Undecided("range", pos, "", fmt.Sprintf("expected the two index windows (types, capacities) of the dictionary transform, found %d fields cut from a package table", len(wins)))
+	}
+	for _, b := range bad {
+		c.Viol("range|"+b, pos, "", b+": the widths a column may use would not match its capacities")
+	}
+	for k, w := range wins {
+		var msgs []string
+		if fi != nil && w.fn != fi {
+			msgs = append(msgs, fmt.Sprintf("the bounds are computed by %s, not by the index function %s", w.fn.Name(), fi.Name()))
+		}
+		if core.SameValue(w.lo, w.hi) || core.AccessPath(w.lo) != "" && core.AccessPath(w.lo) == core.AccessPath(w.hi) {
+			msgs = append(msgs, "lower and upper bound come from the same value")
+		}
+		for j, o := range wins {
+			if j == k {
+				continue
+			}
+			if !(core.SameValue(w.lo, o.lo) || core.AccessPath(w.lo) != "" && core.AccessPath(w.lo) == core.AccessPath(o.lo)) ||
+				!(core.SameValue(w.hi, o.hi) || core.AccessPath(w.hi) != "" && core.AccessPath(w.hi) == core.AccessPath(o.hi)) {
+				msgs = append(msgs, fmt.Sprintf("cut with other bounds than the window of %s", o.field.Name()))
+			}
+			if o.table == w.table && o.field != w.field {
+				msgs = append(msgs, fmt.Sprintf("cut from the same table as %s", o.field.Name()))
+			}
+		}
+		c.Check(len(msgs) == 0, "range="+w.field.Name(), p.Pos(w.pos), core.FuncName(w.host), w.table.Name()+"[findIndex(min) : findIndex(max)+1]",
+			w.field.Name()+" is not "+w.table.Name()+"[findIndex(min) : findIndex(max)+1] with the bounds of its sibling: "+strings.Join(msgs, "; ")+" — the widths a column may use would not match its capacities")
 	}
 	// constructors: MinCard ≤ MaxCard
 	for _, fn := range p.FuncsIn(func(pp string) bool { return strings.HasSuffix(pp, "/schema/config") }) {
@@ -1000,4 +1046,109 @@ func init() {
 	for _, prop := range []string{"C01", "C02", "C03"} {
 		register(prop, &core.Rule{ID: "RT.26", Title: "the dictionary scan inspects every column before the record is judged (a batch in which many dictionaries grow at once still encodes)", Mod: core.ModRoot, Floor: 3, Run: c13_1})
 	}
+}
+
+// tableWindow follows v to a slice expression table[f(lo) : f(hi)+1] over a package-level variable.
+// env maps the parameters of the helpers entered on the way to the arguments they were called with.
+// Returns the table (nil: v is not cut from a package table), the index function, the two bound
+// arguments (resolved to the outermost caller) and a reason when the form is not the expected one.
+func tableWindow(v ssa.Value, env map[*ssa.Parameter]ssa.Value, depth int) (tbl *ssa.Global, f *ssa.Function, lo, hi ssa.Value, why string) {
+	resolve := func(x ssa.Value) ssa.Value {
+		for k := 0; k < 8; k++ {
+			x = core.Strip(x)
+			prm, ok := x.(*ssa.Parameter)
+			if !ok || env[prm] == nil {
+				return x
+			}
+			x = env[prm]
+		}
+		return x
+	}
+	v = resolve(v)
+	if depth > 6 {
+		return nil, nil, nil, nil, ""
+	}
+	switch x := v.(type) {
+	case *ssa.Call:
+		callee := x.Call.StaticCallee()
+		if callee == nil || callee.Blocks == nil || !core.InRepo(core.FnPkgPath(callee)) {
+			return nil, nil, nil, nil, ""
+		}
+		sub := map[*ssa.Parameter]ssa.Value{}
+		for k, a := range env {
+			sub[k] = a
+		}
+		for k, prm := range callee.Params {
+			if k < len(x.Call.Args) {
+				sub[prm] = resolve(x.Call.Args[k])
+			}
+		}
+		first := true
+		for _, r := range core.Returns(callee) {
+			if len(r.Results) == 0 {
+				continue
+			}
+			t2, f2, lo2, hi2, why2 := tableWindow(r.Results[0], sub, depth+1)
+			if first {
+				tbl, f, lo, hi, why = t2, f2, lo2, hi2, why2
+				first = false
+				continue
+			}
+			if t2 != tbl || f2 != f {
+				return tbl, f, lo, hi, "the helper " + callee.Name() + " returns different windows on different paths"
+			}
+		}
+		return
+	case *ssa.Slice:
+		base := resolve(x.X)
+		ld, ok := base.(*ssa.UnOp)
+		if !ok || ld.Op != token.MUL {
+			return nil, nil, nil, nil, ""
+		}
+		g, ok := ld.X.(*ssa.Global)
+		if !ok {
+			return nil, nil, nil, nil, ""
+		}
+		tbl = g
+		if x.Low == nil || x.High == nil {
+			return tbl, nil, nil, nil, "the table is not cut on both sides"
+		}
+		lc, ok1 := core.Strip(x.Low).(*ssa.Call)
+		hb, ok2 := core.Strip(x.High).(*ssa.BinOp)
+		if !ok1 || !ok2 || hb.Op != token.ADD {
+			return tbl, nil, nil, nil, "the bounds are not f(min) and f(max)+1"
+		}
+		hc, ok3 := core.Strip(hb.X).(*ssa.Call)
+		one, isC := core.ConstInt(hb.Y)
+		if !ok3 {
+			hc, ok3 = core.Strip(hb.Y).(*ssa.Call)
+			one, isC = core.ConstInt(hb.X)
+		}
+		if !ok3 || !isC || one != 1 || lc.Call.StaticCallee() == nil || lc.Call.StaticCallee() != hc.Call.StaticCallee() || len(lc.Call.Args) != 1 || len(hc.Call.Args) != 1 {
+			return tbl, nil, nil, nil, "the bounds are not f(min) and f(max)+1 with one index function"
+		}
+		return tbl, lc.Call.StaticCallee(), resolve(lc.Call.Args[0]), resolve(hc.Call.Args[0]), ""
+	}
+	return nil, nil, nil, nil, ""
+}
+
+// indexFunctionOf: the function whose results bound the windows cut from the package tables of the
+// transform package (resolved from the window stores, not by name).
+func indexFunctionOf(p *core.Prog) *ssa.Function {
+	var out *ssa.Function
+	for _, fn := range p.FuncsIn(func(pp string) bool { return pp == pkgTransform }) {
+		core.EachInstr(fn, func(i ssa.Instruction) {
+			st, ok := i.(*ssa.Store)
+			if !ok || out != nil {
+				return
+			}
+			if _, ok := st.Addr.(*ssa.FieldAddr); !ok {
+				return
+			}
+			if _, f, _, _, why := tableWindow(st.Val, nil, 0); f != nil && why == "" {
+				out = f
+			}
+		})
+	}
+	return out
 }
